@@ -583,6 +583,23 @@ def run(ctx):
                                              "twin_handlers": [[exc, r2, 0]] if r2 else []})
     ctx.note_space("two instances of one class: first with a handler (5 reports), second with another "
                    "handler or none, 3 classes x 2 stages", n)
+    # what an exception class means depends on the test it is raised in (its skipException, its handler table): the
+    # same class first seen in a test where it is a skip / unclaimed, then in one where it is an error / claimed
+    n = 0
+    for s1, s2 in [("su", "td"), ("test", "td"), ("test", "c1"), ("td", "c1"), ("su", "c1")]:
+        for rep in range(2):
+            if ctx.mine():
+                n += 1
+                ctx.execute("prog", {"placed": [[s1, "skipsub"]]})
+                ctx.execute("prog", {"placed": [[s1, "skipsub"], [s2, "skip"]], "extra": {"own_skip": True}})
+                ctx.execute("prog", {"placed": [[s1, "custom:CustomBase"]]})
+                ctx.execute("prog", {"placed": [[s1, "custom:CustomBase"], [s2, "error"]],
+                                     "extra": {"handlers": [["CustomBase", "skip", 0]]}})
+                ctx.execute("prog", {"placed": [[s1, "custom:CustomA"], [s2, "skip"]]})
+                ctx.execute("prog", {"placed": [[s1, "custom:CustomA"], [s2, "skip"]],
+                                     "extra": {"handlers": [["CustomA", "skip", 0]]}})
+    ctx.note_space("one exception class, first where it is benign / unclaimed, then where it is not (own skipException, a "
+                   "user handler): 5 stage pairs x 6 programs in that order", n)
     ctx.notes["random_cases"] = True
     for i in range(ctx.scale(2500, 250000)):
         if ctx.out_of_time():
